@@ -248,9 +248,39 @@ theorem log_grid_refinement_converges (x : Nat → ℝ) (hpos : ∀ i, 0 < x i) 
     hmin hmax ρ hmin0 hρ hlo hhi (Real.log z) (Real.log_lt_log (hpos 0) h0) (Real.log_le_log hz h1)
   simpa [Real.exp_log hz, Real.exp_log (hpos _)] using h
 
-/-- non-vacuity of the convergence statement: `exp` on a uniform grid satisfies every hypothesis
-with `M = 1` on … any bound would do; here a polynomial PDF of higher degree than the interpolation
-(`t³`, degree-2 interpolation on the grid 0,1,2,3,4): the Lebesgue function and the actual error -/
+
+/-- **from the interpolant to the prediction**: a prediction is `Σ_j f(x_j)·Φ(p_j)` with `Φ` linear.
+If `Φ` only looks at `[a, b]` (inside the grid, above its first node) and is bounded there in the sup
+norm by `B` (for yadism's functionals: `B = ∫|reg| + ∫|sing|·… + |loc|`, the integrability of the
+coefficient function), the prediction for a smooth PDF is within `B` times the interpolation bound
+of `Φ(f)`, the exact factorised structure function — on every grid, so two adequate grids agree
+within the sum of their bounds and both converge to `Φ(f)` at the rate `hmax^(d+1)` -/
+theorem prediction_converges (xs : Nat → ℝ) (hxs : StrictMono xs) (n d : Nat) (hd : 1 ≤ d) (hn : d + 1 ≤ n)
+    (f : ℝ → ℝ) (hf : ContDiff ℝ (d + 1 : ℕ) f) (M : ℝ) (hM : ∀ y, |iteratedDeriv (d + 1) f y| ≤ M)
+    (hmin hmax ρ : ℝ) (hmin0 : 0 < hmin) (hρ : hmax ≤ ρ * hmin)
+    (hlo : ∀ s, s + 1 < n → hmin ≤ xs (s + 1) - xs s) (hhi : ∀ s, s + 1 < n → xs (s + 1) - xs s ≤ hmax)
+    (a b : ℝ) (ha : xs 0 < a) (hb : b ≤ xs (n - 1))
+    (Φ : (ℝ → ℝ) →ₗ[ℝ] ℝ) (B : ℝ)
+    (hΦ : ∀ (g : ℝ → ℝ) (ε : ℝ), (∀ t, a ≤ t → t ≤ b → |g t| ≤ ε) → |Φ g| ≤ B * ε) :
+    |(∑ j ∈ Finset.range n, f (xs j) * Φ (fun t => basis xs n d j t)) - Φ f|
+      ≤ B * ((1 + ((d : ℝ) + 1) * ((d : ℝ) * ρ) ^ (d + 1)) * (M * ((d : ℝ) * hmax) ^ (d + 1) / (Nat.factorial d))) := by
+  have h1 : (∑ j ∈ Finset.range n, f (xs j) * Φ (fun t => basis xs n d j t))
+      = Φ (fun t => interpolant xs (fun j => f (xs j)) n d t) := by
+    have : (fun t => interpolant xs (fun j => f (xs j)) n d t)
+        = ∑ j ∈ Finset.range n, f (xs j) • (fun t => basis xs n d j t) := by
+      funext t
+      simp [interpolant, sumUpTo_eq, Finset.sum_apply]
+    rw [this, map_sum]
+    simp [map_smul]
+  rw [h1, ← map_sub]
+  apply hΦ
+  intro t hta htb
+  exact refinement_converges xs hxs n d hd hn f hf M hM hmin hmax ρ hmin0 hρ hlo hhi t
+    (lt_of_lt_of_le ha hta) (le_trans htb hb)
+
+/-- non-vacuity of the convergence statements: a PDF outside the span (`t³`, degree-2
+interpolation on the grid 0,1,2,3,4; mesh ratio 1, third derivative 6): the Lebesgue function is
+`5/4 ≤ 3·2³` and the actual error `3/8 ≤ (1 + 24)·6·2³/2` -/
 example : lebesgue (fun i => (i : Rat)) 5 2 (1/2) = 5/4
     ∧ |interpolant (fun i => (i : Rat)) (fun j => (j : Rat) ^ 3) 5 2 (1/2) - (1/2) ^ 3| = 3/8 := by
   decide +kernel
